@@ -21,7 +21,7 @@
                          serves an entry of a failed, overwritten batch on a
                          concrete history of honest batches
 
-   Hypothesis (in the spirit of no_torn_collision): no_stale_commit f p -- no
+   Assumed (in the spirit of no_torn_collision): no_stale_commit f p -- no
    commit frame that the scan of f meets at or behind offset p stores the CRC
    of its apparent range (the bytes between the preceding commit frame of the
    scan and itself).  Decidable: no_stale_commitb. *)
